@@ -5,7 +5,7 @@ ID = "C05"
 LEAN_MODULE = "Ucfg.Props.C05"
 LEVEL_TEXT = 'Normalisation theorems for primitives and for combining duplicate definitions, and the lift newFrom_then_reify: for every plain input map (scalars, non-empty lists and string-keyed maps nested to any depth, keys that are single path segments and all different, no variable expansion) NewFrom followed by the generic reify returns exactly the view `expect` written on the data alone (entries sorted by key, positive integers unsigned, durations / regexps as text) - mutual induction over the data (norm_expect), sorted dictionaries, the merge into the empty config as a deep copy (mergeDictP_sorted, reifyP_cpy); representation erasure and partial flattenings are decided by the correspondence over 8 Go representations with permuted map orders (partial).'
 CORRESPONDENCE = "Normalize.newFrom/normValue/setField/combineV ~ ucfg.NewFrom"
-RULE = ("plain data trees (depth <= 5, 5-key alphabet, nil/empty containers) in up to 8 Go representations of the same tree "
+RULE = ("Plus: a config with a history of writes and removals read as it is and through a config created from it (directly, embedded in a map, embedded in a list): both unpack to the same value. Main stream: plain data trees (depth <= 5, 5-key alphabet, nil/empty containers) in up to 8 Go representations of the same tree "
         "(map[string]interface{}, map[interface{}]interface{}, typed maps/slices, [N]T, pointers, alternating pointer/interface layers, reflect.StructOf structs with tags, "
         "*Config embedded at random positions) x random partial flattenings into dotted keys (PathSep '.', mixtures of nested and "
         "dotted definitions, list elements addressed by index) x injected duplicate definitions. Oracle: the config unpacks to the "
@@ -166,6 +166,29 @@ def gen(rng, tier):
     frng = rng.fork("forest")
     for _ in range(120 if tier == "quick" else 1200):
         yield FO.history(frng, tier, refs=False, reads=False, flavour="c05")
+    # a config that has a history of writes and removals (nodes that held named settings and list elements at some time),
+    # read as it is and read through a config created from it: the two unpack to the same value
+    PS = [opt("PathSep", ".")]
+    drng = rng.fork("forest-views")
+    for i in range(60 if tier == "quick" else 600):
+        ops = [{"op": "new", "r": 0, "from": M([("n", M([("z", U(1))])), ("k", U(2))]), "opts": PS}]
+        names = ["n.0", "n.1", "n.x", "n.y", "m.0", "m.a", "m.a.b", "l.0.q", "l.0.0"]
+        written = []
+        for _ in range(2 + drng.below(5)):
+            nm = drng.pick(names)
+            ops.append({"op": "set", "r": 0, "name": nm, "idx": -1, "val": drng.pick([U(3), S("s"), B(True)]), "opts": PS}); written.append(nm)
+        for _ in range(1 + drng.below(3)):
+            ops.append({"op": "remove", "r": 0, "name": drng.pick(written + ["n.z"]), "idx": -1, "opts": PS})
+        how = drng.pick(["direct", "embedded", "embedded-list"])
+        src = {"reg": 0} if how == "direct" else (M([("e", {"reg": 0})]) if how == "embedded" else M([("w", A([{"reg": 0}]))]))
+        ops.append({"op": "new", "r": 1, "from": src, "opts": PS})
+        ops.append({"op": "read", "r": 0, "what": "view", "name": "", "idx": -1, "opts": PS})
+        if how == "direct":
+            ops.append({"op": "read", "r": 1, "what": "view", "name": "", "idx": -1, "opts": PS, "sameAsPrev": True})
+        else:
+            ops.append({"op": "read", "r": 1, "what": "childview", "name": "e" if how == "embedded" else "w.0", "idx": -1, "opts": PS, "sameAsPrev": True})
+        yield {"k": "forest", "regs": 5, "ops": ops, "reattach": True, "_tag": "forest/views", "_nt": True,
+               "_sig": "views|%s|%d|%d" % (how, len(ops), i % 7)}
 
 
 def oracle(case, impl, model):
